@@ -32,7 +32,7 @@ def universe():
 
     base = [
         pdt.Int8(), pdt.Int16(), pdt.Int32(), pdt.Int64(), pdt.UInt8(), pdt.UInt16(), pdt.UInt32(), pdt.UInt64(),
-        pdt.Int(), pdt.Float32(), pdt.Float64(), pdt.Float(), Decimal(), Decimal(10, 2),
+        pdt.Int(), pdt.Float32(), pdt.Float64(), pdt.Float(), Decimal(), Decimal(10, 2), Decimal(5, 2), Decimal(7, 3),
         pdt.String(), pdt.String(5), Enum("a", "b"), pdt.Bool(), pdt.Date(), pdt.Datetime(), Time(), Duration(), NullType(),
         List(pdt.Int64()), List(pdt.String()),
     ]  # fmt: skip
